@@ -175,7 +175,8 @@ RespCheck(p, m) == IF "validateResponsePayload" \in DOMAIN p.cfg /\ p.cfg.valida
 Handlers(p) ==
     { [ctrl |-> CtrlOf(p, m).id, ctrlName |-> CtrlOf(p, m).name, pkg |-> CtrlOf(p, m).pkg, method |-> m.name, verb |-> m.verb, path |-> NormPath(CtrlOf(p, m), m),
        hidden |-> m.hidden, alts |-> EffectiveSecurity(p.cfg, CtrlOf(p, m), m), params |-> BindParams(m), returnsValue |-> (Len(m.ret) = 2),
-       respCheck |-> RespCheck(p, m)]
+       respCheck |-> RespCheck(p, m),
+       enumStrict |-> ("validateTopLevelOnlyEnum" \in DOMAIN p.cfg /\ p.cfg.validateTopLevelOnlyEnum)]
         : m \in {x \in Range(p.methods) : IsApi(x)} }
 
 ExpBody(m) ==
